@@ -12,6 +12,7 @@ CONSTANTS
   Journal = FALSE
   DumpFile = FALSE
   VersionedCids = {}
+  QuietCids = {}
   Raisers = {}
   Conform = TRUE
   InitConnected = TRUE
